@@ -46,7 +46,15 @@ DisconnectDefects(e) ==
 Defects0(e) ==
     (IF e.panic = "" THEN {} ELSE {"panic or hang"})
     \cup (IF \A w \in Writes(e) : Len(e.outcomes[w]) = 1 THEN {} ELSE {"a write does not have exactly one outcome"})
-    \cup (IF [w \in Writes(e) |-> e.outcomes[w]] \in Allowed(e) THEN {} ELSE {"outcome is not that of any linearization of the verdicts and the timeout"})
+    \* (a schedule that could not be realised as given - a step blocked on a lock held by a parked process and completed
+    \* later - is judged by the order-independent part of the contract only)
+    \cup (IF e.realised
+          THEN (IF [w \in Writes(e) |-> e.outcomes[w]] \in Allowed(e) THEN {} ELSE {"outcome is not that of any linearization of the verdicts and the timeout"})
+          ELSE (IF \A w \in Writes(e) : \A i \in DOMAIN e.outcomes[w] :
+                       /\ (e.outcomes[w][i] = "ok" => \A c \in DOMAIN e.verdict[w] : e.verdict[w][c] = "approve")
+                       /\ (~e.expires[w] /\ (\A c \in DOMAIN e.verdict[w] : e.verdict[w][c] = "approve") => e.outcomes[w][i] = "ok")
+                       /\ (~e.expires[w] /\ (\E c \in DOMAIN e.verdict[w] : e.verdict[w][c] = "deny") => e.outcomes[w][i] = "err")
+                THEN {} ELSE {"outcome contradicts the verdicts"}))
     \cup (IF \A w \in Writes(e) : \A c \in DOMAIN e.presented[w] : e.presented[w][c] = 1 THEN {} ELSE {"write not presented exactly once to every callback"})
     \* the data is that of the last applied write, or unchanged
     \cup (IF e.data \in {0} \cup {e.values[w] : w \in {x \in Writes(e) : "ok" \in SetOfSeq(e.outcomes[x])}}
